@@ -1,4 +1,5 @@
 import Sigc.TrkLemmas
+import Sigc.TrkLemmas2
 /-!
   # C16 — trackable notifications fire exactly once, and copies do not inherit them
 
@@ -317,5 +318,36 @@ example :
     h.Domain = true ∧ (run h).objs 0 ≠ none ∧
       delivered (notifyCallbacks h.sc 0 (run h)).trace = [0, 1] ∧
       delivered (notifyCallbacks h.sc 0 (notifyCallbacks h.sc 0 (run h))).trace = [0, 1] := by decide
+
+/-- C16's domain is contained in the wider domain `Domain2` -/
+theorem Domain_sub_Domain2 (h : History) : h.Domain = true → h.Domain2 = true := by
+  unfold History.Domain History.Domain2
+  simp only [List.all_eq_true]
+  intro hd b hb o ho
+  have := hd b hb o ho
+  cases o <;> simp_all [BodyOp.isRem, BodyOp.isNotify]
+
+/-- **C16.add_in_round_safe.** Safety on the wider domain: callbacks that remove registrations and call
+    add_destroy_notify_callback during a round (in any mix) never drive the callback list into an error
+    state (no iterator invalidation, no double delete, iteration reaches end()). -/
+theorem add_in_round_safe (h : History) (dom : h.Domain2 = true) : (run h).err = none :=
+  (run_inv2 dom).noerr
+
+/-- an `add` issued while the list of `t` is being delivered changes nothing of the list -/
+theorem add_in_round_ignored (s : State) (t d k : Nat) (l : CbList) (hc : l.clearing = true)
+    (ho : s.objs t = some ⟨some l⟩) : (addDestroyNotify t d k s).objs t = some ⟨some l⟩ := by
+  simp [addDestroyNotify, ho, getList, CbList.addCallback, hc]
+
+/-- non-vacuity: a callback that adds and removes during the round; the round runs to the end, both
+    registrations are delivered, the in-round `add` leaves nothing behind -/
+example :
+    let h : History := ⟨[[.add 2 0, .rem 1]], [.new 0, .add 0 1 0, .add 0 1 0, .notify 0, .del 0]⟩
+    h.Domain2 = true ∧ h.Domain = false ∧ (run h).err = none ∧ delivered (run h).trace = [0, 1] ∧
+      added (run h).trace = [0, 1, 2, 3] := by decide
+
+/-- **C16.add_in_round_once.** On the wider domain too, no registration is delivered twice: the
+    registration ids of all `deliver` events of the run are pairwise distinct. -/
+theorem add_in_round_once (h : History) (dom : h.Domain2 = true) : (delivered (run h).trace).Nodup :=
+  (run_inv3 dom).dnodup
 
 end Sigc.C16
